@@ -18,7 +18,8 @@ def build(ck):
 
 
 RULE = ("all histories of <= D steps over {stop, tick (<= 4), set_heart_beat(X,0|1|2) for 4 objects, destruct(X), clone a "
-        "heart-beat object (2 programs, interval 1|2)} from each of 27 initial populations (O0..O2 each off/1/2; O0 is a "
+        "heart-beat object (2 programs, interval 1|2), an uncaught error raised by a driver-level apply in an unrelated object "
+        "without heart beat, a call_out of that object that raises in the call_out phase of the next tick} from each of 27 initial populations (O0..O2 each off/1/2; O0 is a "
         "blueprint, O1 O2 clones, +1 object cloned during the history), on the real src/backend.c driven as backend() does "
         "(call_heart_beat inside save_context/setjmp/restore_context, remove_destructed_objects after each tick); deviations "
         "(budget B) chosen at the moment a heart_beat is invoked inside a round: its script {self off, other->set_heart_beat"
